@@ -3,11 +3,42 @@ import json, os
 import vlib
 
 PID = "C07"
-CFG = 'CONSTANT Mode = "c07"\nSPECIFICATION Spec\nINVARIANTS BaseAccepted T7a Emit\nCHECK_DEADLOCK FALSE\n'
+CFG = 'CONSTANTS Mode = "c07"  MaxMut = 1\nSPECIFICATION Spec\nINVARIANTS BaseAccepted T7a Emit\nCHECK_DEADLOCK FALSE\n'
 
 
 def gen():
     return vlib.cached_tlc("docs", "Gen_Doc", CFG, workers=8)
+
+
+CHAIN_CFG = 'CONSTANTS Mode = "%s"  MaxMut = 3\nSPECIFICATION Spec\nINVARIANTS Emit\nCHECK_DEADLOCK FALSE\n'
+
+
+def gen_chains(mode, seed):
+    """thorough tier: chains of 2-3 mutations sampled by `tlc -simulate` for a fixed time (the sample depends on the seed)."""
+    return vlib.cached_tlc("docs-chains-%s-%d" % (mode, seed), "Gen_Doc", CHAIN_CFG % mode, workers=4, timeout=40,
+                           simulate="num=1000000", depth=5, seed=seed)
+
+
+def merge_rows(paths, out, limit=None, accepted_only=False):
+    """concatenate DOC rows of several generator outputs, dropping duplicates of the same document"""
+    seen = set()
+    n = 0
+    with open(out, "w") as g:
+        for i, pth in enumerate(paths):
+            for line in open(pth):
+                if limit is not None and i > 0 and n >= limit:
+                    break
+                if accepted_only and i > 0 and '"rej"' in line and 'true,"ok"]' not in line:
+                    continue
+                if not line.startswith('["DOC"'):
+                    continue
+                doc = json.dumps(json.loads(line)[3])
+                if doc in seen:
+                    continue
+                seen.add(doc)
+                g.write(line)
+                n += 1
+    return n
 
 
 def prepare():
@@ -28,6 +59,11 @@ def split(data):
 def run(tier, seed, t0):
     data, meta = gen()
     rows, devs = split(data)
+    if tier == "thorough":
+        cdata, cmeta = gen_chains("c07", seed)
+        nrows = merge_rows([rows, cdata], rows + ".thorough")
+        rows = rows + ".thorough"
+        meta = dict(meta, distinct=meta["distinct"] + cmeta["distinct"], generated=meta["generated"] + cmeta["generated"], lines=nrows + len(devs))
     v = vlib.Verdict(PID)
     for d in devs:  # model-level deviations (L2 vs L1) must all be listed known findings
         if v.find_known(d[1]) is None:
